@@ -17,6 +17,7 @@ import (
 
 	"github.com/cloudflare/pint/internal/checks"
 	"github.com/cloudflare/pint/internal/parser"
+	"github.com/cloudflare/pint/internal/parser/utils"
 	"github.com/cloudflare/pint/verifharness/explore"
 	"github.com/cloudflare/pint/verifharness/lib/pipeline"
 	"github.com/cloudflare/pint/verifharness/lib/promqlgen"
@@ -38,14 +39,15 @@ var frag = promqlgen.Alphabet{
 
 var (
 	chainOps   = []string{"and", "unless", "*", "=="}
-	chainRight = []string{"bar", "sum(bar)", "sum by(a) (bar)", "vector(1)"}
+	chainRight = []string{"bar", "sum(bar)", "sum by(a) (bar)", "vector(1)", "sum by(a, b) (bar)"}
 	chainUnary = []string{"sum(%s)", "sum by(a) (%s)", "sum without(a) (%s)", "abs(%s)", "min by(b) (%s)", "%s > 0"}
+	aggOuter   = []string{"sum without(a) (%s)", "sum without(b) (%s)", "sum by(a) (%s)", "sum(%s)", "min by(b) (%s)"}
 	orAlts     = []string{"foo", `foo{a="x"}`, "sum(foo)", "sum by(a) (foo)", "vector(1)"}
 	orRight    = []string{"bar", `bar{a="x"}`, "sum(bar)", "sum by(a) (bar)", "vector(1)"}
 	reOps      = []string{"and", "unless", "*"}
 	reMod1     = []string{"", "on(a)", "ignoring(b)", "on(a, a)"}
 	reAgg      = []string{"sum without(a) (%s)", "sum without(a, a) (%s)", "sum by(b) (%s)", "sum by(b, b) (%s)", "sum by(a, b) (%s)", "min without(a, c) (%s)", "sum(%s)"}
-	reMod2     = []string{"on(b) group_left(a)", "on(b) group_left(a, a)", "ignoring(a) group_left(a)", "ignoring(a, a) group_left(a)", "ignoring(a, c) group_left(a)", "on(b) group_left()", "on(b, b) group_left(a)", "on(b) group_right(a)"}
+	reMod2     = []string{"on(b) group_left(a)", "on(b) group_left(a, a)", "ignoring(a) group_left(a)", "ignoring(a, a) group_left(a)", "ignoring(a, c) group_left(a)", "on(b) group_left()", "on(b, b) group_left(a)", "on(b) group_right(a)", "on(b) group_left(a, c)", "on(b) group_left(c, a)"}
 	reSel3     = []string{"foo", "bar", `foo{a="x"}`}
 	// a small alphabet for all expressions of <=3 operator nodes (thorough)
 	mini = promqlgen.Alphabet{
@@ -146,6 +148,9 @@ func deadReports(expr string) ([]deadReport, string) {
 	if crash != nil || len(entries) != 1 || entries[0].Rule.AlertingRule == nil {
 		return nil, "cannot build the alert rule"
 	}
+	// the check runs on a rule that other checks have analysed before it (alerts/comparison, alerts/template and
+	// promql/fragile call LabelsSource on the same parsed expression first): analyse once, then take the verdict
+	utils.LabelsSource(entries[0].Rule.Expr().Value.Value, entries[0].Rule.Expr().Query.Expr)
 	var out []deadReport
 	for _, p := range checks.NewImpossibleCheck().Check(context.Background(), entries[0], entries) {
 		if p.Summary != "dead code in query" {
@@ -252,7 +257,7 @@ func class(reason, expr string) string {
 func body(c *explore.Chooser) *explore.Case {
 	var e promqlgen.Expr
 	var ok bool
-	subs := []string{"ops1", "wrapped", "chain", "reinclude", "orjoin"}
+	subs := []string{"ops1", "wrapped", "chain", "reinclude", "orjoin", "aggjoin"}
 	if tier == "thorough" {
 		subs = append(subs, "ops2", "mini3")
 	}
@@ -325,6 +330,18 @@ func body(c *explore.Chooser) *explore.Case {
 			l, r = r, l
 		}
 		e = promqlgen.Expr{Text: "(" + l + ") " + op + " " + mod + " (" + r + ")", Metrics: map[string]bool{"foo": true, "bar": true}, Ops: 3}
+		ok = true
+	case "aggjoin":
+		// AGG(SEL op MOD R): an aggregation over a join removes or keeps labels the join brought in
+		agg := aggOuter[c.Free(len(aggOuter), "agg")]
+		sel := "foo"
+		if m := frag.Matchers[c.Free(len(frag.Matchers), "m")]; m != "" {
+			sel = "foo{" + m + "}"
+		}
+		op := chainOps[c.Free(len(chainOps), "op")]
+		mod := frag.Modifiers[c.Free(len(frag.Modifiers), "mod")]
+		r := chainRight[c.Free(len(chainRight), "r")]
+		e = promqlgen.Expr{Text: fmt.Sprintf(agg, sel+" "+op+" "+mod+" ("+r+")"), Metrics: map[string]bool{"foo": true, "bar": true}, Ops: 3}
 		ok = true
 	case "ops2":
 		e, ok = promqlgen.Gen(c, &frag, 2, "e")
@@ -409,7 +426,7 @@ func body(c *explore.Chooser) *explore.Case {
 func main() {
 	explore.Main(&explore.Config{
 		Property: "C12", Level: "exploration",
-		Rule:        "expressions of the property's fragment (selectors x 4 matcher sets, label-preserving functions, aggregations by/without, arithmetic/comparison/set operators x 9 matching modifiers, numbers and vector(n) operands): all with <=1 operator node, every unary wrapper around every <=1-operator expression, and the 3-operator shapes chain (U2(U1(sel)) op mod R, both orientations) reinclude (sel op mod1 (agg(bar) * mod2 sel3), label lists with repeated names) and orjoin ((L1 or L2) op mod R, both orientations) (thorough: also all with <=2 operator nodes and all with <=3 operator nodes of a small alphabet); for every 'dead code in query' problem of the real promql/impossible check, every binary operation the flagged position can belong to is evaluated by the vendored engine on EVERY database of <=2 series in which each series carries all labels a,b,c (values x|y) with constant values 0|1|2; a candidate is an enclosing binary operation B plus the flagged source X (the operand holding the position, or an `or` alternative of it holding the position); (B,X) is refuted on a database where B returns something and differs (labels and values) from B with X replaced by a selector matching nothing; the report is a false positive iff every candidate is refuted on some database",
+		Rule:        "expressions of the property's fragment (selectors x 4 matcher sets, label-preserving functions, aggregations by/without, arithmetic/comparison/set operators x 9 matching modifiers, numbers and vector(n) operands): all with <=1 operator node, every unary wrapper around every <=1-operator expression, and the 3-operator shapes chain (U2(U1(sel)) op mod R, both orientations) reinclude (sel op mod1 (agg(bar) * mod2 sel3), label lists with repeated names), orjoin ((L1 or L2) op mod R, both orientations) and aggjoin (agg(sel op mod R)), the verdict being taken on a rule that has been analysed once before as in the real pipeline (thorough: also all with <=2 operator nodes and all with <=3 operator nodes of a small alphabet); for every 'dead code in query' problem of the real promql/impossible check, every binary operation the flagged position can belong to is evaluated by the vendored engine on EVERY database of <=2 series in which each series carries all labels a,b,c (values x|y) with constant values 0|1|2; a candidate is an enclosing binary operation B plus the flagged source X (the operand holding the position, or an `or` alternative of it holding the position); (B,X) is refuted on a database where B returns something and differs (labels and values) from B with X replaced by a selector matching nothing; the report is a false positive iff every candidate is refuted on some database",
 		Assumptions: []string{"a dead Source carries a position but not the operation that killed it, so all enclosing binary operations are candidates and a report only counts as false when all are refuted (never alarms on a correct report)", "engine over our in-memory storage is the truth"},
 		Spaces:      []*explore.Space{{Name: "expressions", Body: body, Setup: setup, Bound: func(string) int { return -1 }}},
 		BudgetS: func(t string) int {
